@@ -715,6 +715,21 @@ def native_method_call(I, name, recv, args, kw):
                     return args[1]
                 return r.v
             return r
+        if name == 'keys':
+            return recv
+        if name in ('update', 'pop', 'clear', 'setdefault'):
+            # contents change in a way the model does not track: forget what was learnt
+            recv.memo.clear()
+            recv.keys_.clear()
+            return None
+        if name in ('items', 'values'):
+            n = fresh("n_" + recv.name)
+            I.path.assume(n >= 0)
+            vk = recv.vkind
+            return _pyvc().SList(recv.name + "." + name, n,
+                                 lambda I2, tag: (Opaque('object', recv.name + '.key'),
+                                                  Opaque('object', recv.name + '.value')) if name == 'items'
+                                 else Opaque('object', recv.name + '.value'))
         raise OutOfFragment("SDict.%s" % name)
     allconc = not is_symbolic(recv) and not isinstance(recv, (MB, SL)) and \
         all(not is_symbolic(a) and not isinstance(a, (MB, SL, _pyvc().Closure, _pyvc().BoundMethod))
@@ -948,3 +963,21 @@ def m_gmtime(I, args, kw):
 @model_for(_time.strftime, _time.asctime, _time.ctime)
 def m_strftime(I, args, kw):
     return Opaque('str', 'formatted-time', taint_of(list(args)), {'nonempty'})
+
+
+import six as _six  # noqa: E402
+
+
+@model_for(_six.iteritems)
+def m_iteritems(I, args, kw):
+    return I.call_value(I.getattr(args[0], 'items'), [], {})
+
+
+@model_for(_six.iterkeys)
+def m_iterkeys(I, args, kw):
+    return I.call_value(I.getattr(args[0], 'keys'), [], {})
+
+
+@model_for(_six.itervalues)
+def m_itervalues(I, args, kw):
+    return I.call_value(I.getattr(args[0], 'values'), [], {})
